@@ -1,21 +1,23 @@
 import Cose.Key.Prims
 import Cose.Crypto.ConstructionLemmas
+import Cose.Key.HkdfReader
 /-!
 # C13 — HKDF-SHA and HKDF-AES derive exactly the RFC 5869 / RFC 9053 output
 
 `Cose.Crypto.hkdf*` is RFC 5869 written over an arbitrary PRF; HKDF-SHA-256/512 instantiate it with HMAC,
 HKDF-AES-128/256 with the library's own AES-CBC-MAC (zero IV, zero padding only when unaligned — the same
-`cbcMacFull` as C11).  The prefix property and the 255-block limit are proved for every PRF; equality of the
-library's output (one-shot and through arbitrary read chunkings of the Go reader) with these definitions is the
-spec-op correspondence `prim.hkdf*`.
+`cbcMacFull` as C11).  The prefix property and the 255-block limit are proved for every PRF.  The Go reader
+`aesHKDF` (uint8 counter, leftover buffer) is modelled as `AesHkdf.read`; `reader_chunking_limit` /
+`reader_chunking_value` prove, by an invariant over every history of reads (`Cose.Key.HkdfReader`), that any
+chunking hands out exactly the one-shot output and stops at 255 blocks.  Equality of the library's bytes with
+these definitions (one-shot, and per chunk for generated chunkings incl. those that cross the limit) is the
+correspondence `prim.hkdf*`.
 -/
 namespace Cose.Props.C13
 open Cose.Key Cose.Crypto
 
-theorem aesPrf_length (E : Bytes → Bytes) (hE : ∀ b, (E b).length = 16) : ∀ k m, (aesPrf E k m).length = 16 := by
-  intro k m
-  unfold aesPrf cbcMacFull
-  exact cbcChain_length E hE _ _ _ (zeros_length 16)
+theorem aesPrf_length (E : Bytes → Bytes) (hE : ∀ b, (E b).length = 16) : ∀ k m, (aesPrf E k m).length = 16 :=
+  aesPrf_len E hE
 
 /-- **HKDF-AES: shorter output is a prefix of longer output** (every AES key, info and pair of lengths) -/
 theorem hkdfAes_prefix (E : Bytes → Bytes) (hE : ∀ b, (E b).length = 16) (info : Bytes) (l l' : Nat)
@@ -70,6 +72,43 @@ theorem reader_limit_fresh (E : Bytes → Bytes) (info : Bytes) (n : Nat) (h : n
   simp only [List.length_nil, this]
   have : 0 + 255 * 16 < n := by omega
   simp [this]
+
+/-- **the Go reader under every chunking — limit**: a sequence of reads of sizes `ns` on a fresh reader succeeds
+    iff the total is at most 255 blocks (4080 bytes); in particular a read after exactly 255 blocks were handed out
+    fails, however the earlier reads were cut -/
+theorem reader_chunking_limit (E : Bytes → Bytes) (hE : ∀ b, (E b).length = 16) (info : Bytes) (ns : List Nat) :
+    (AesHkdf.reads E (AesHkdf.init info) ns).isSome = decide (ns.sum ≤ 4080) := by
+  obtain ⟨hok, hbad⟩ := reads_from E info hE ns _ 0 0 (rinv_init E info)
+  by_cases h : ns.sum ≤ 4080
+  · obtain ⟨bs, hbs, _, _⟩ := hok (by omega)
+    simp [hbs, h]
+  · simp [hbad (by omega), h]
+
+/-- **the Go reader under every chunking — value**: whenever a sequence of reads succeeds, each chunk has the
+    requested length and their concatenation is the one-shot RFC 9053 HKDF-AES output of the total length -/
+theorem reader_chunking_value (E : Bytes → Bytes) (hE : ∀ b, (E b).length = 16) (info : Bytes) (ns : List Nat)
+    (bs : List Bytes) (h : AesHkdf.reads E (AesHkdf.init info) ns = some bs) :
+    some bs.flatten = hkdfAesSpec E info ns.sum ∧ bs.map List.length = ns := by
+  obtain ⟨hok, hbad⟩ := reads_from E info hE ns _ 0 0 (rinv_init E info)
+  by_cases ht : ns.sum ≤ 4080
+  · obtain ⟨bs', hbs, hflat, hlen⟩ := hok (by omega)
+    rw [hbs] at h
+    cases h
+    rw [hkdfAesSpec_eq_take E info hE _ ht, hflat]
+    exact ⟨rfl, hlen⟩
+  · rw [hbad (by omega)] at h; cases h
+
+/-- the one-shot entry point is the single-read case -/
+theorem reader_single_read (E : Bytes → Bytes) (hE : ∀ b, (E b).length = 16) (info : Bytes) (n : Nat) :
+    ((AesHkdf.init info).read E n).map (·.1) = hkdfAesSpec E info n := by
+  by_cases h : n ≤ 4080
+  · obtain ⟨s', g', hr, _⟩ := read_ok E info hE (rinv_init E info) n (by omega)
+    rw [hr, hkdfAesSpec_eq_take E info hE _ h]; simp
+  · rw [read_refused E info hE (rinv_init E info) n (by omega)]
+    have := hkdfAes_limit E info n
+    cases hs : hkdfAesSpec E info n with
+    | none => rfl
+    | some v => rw [hs] at this; simp at this; omega
 
 -- tests, labelled as tests: RFC 5869 A.1 (HKDF-SHA-256) first bytes, and a chunked read equals a one-shot read
 #guard (hkdf256 (List.replicate 22 0x0b) [0,1,2,3,4,5,6,7,8,9,10,11,12] [0xf0,0xf1,0xf2,0xf3,0xf4,0xf5,0xf6,0xf7,0xf8,0xf9] 42).map (·.take 4)
